@@ -385,10 +385,13 @@ def classify(ctx, module, cfg, hdr, scen, at, strict, known):
     write_trace(rp, hdr, [scen[:at]])
     try:
         be = json.loads(bad_event)
-        sig = '%s|%s|%s' % (be.get('op'), be.get('ok'), re.sub(r'[0-9a-f]{12,}', '#', str(be.get('msg', be.get('panic', ''))))[:60])
+        msg = str(be.get('msg', be.get('panic', '')))
+        msg = re.sub(r'https?://\S+', 'URL', msg)
+        msg = re.sub(r'[0-9a-fA-F]{8,}|\d+', '#', msg)
+        sig = '%s|%s|%s|%s' % (be.get('op'), be.get('ok'), be.get('code'), msg[:50])
     except Exception:
         sig = bad_event[:60]
-    ctx.violations.append(dict(replay=rp, event=bad_event[:600], module=module, sig=sig))
+    ctx.violations.append(dict(replay=rp, event=bad_event[:400], module=module, sig=sig))
 
 
 # --------------------------------------------------------------------- verdicts
